@@ -720,6 +720,7 @@ func (c *Conn) handleCall(ctx context.Context, call rpccp.Call, releaseCall capn
 			callCtx, ans.cancel = context.WithCancel(c.bgctx)
 			tgt := tgtAns.pcall
 			c.tasks.Add(1) // will be finished by answer.Return
+			c.unlockSender()
 			c.mu.Unlock()
 			pcall := tgt.PipelineRecv(callCtx, p.target.transform, capnp.Recv{
 				Args:        p.args,
